@@ -34,7 +34,7 @@ classdef("SwarmAlgorithm", bases=["GeneticAlgorithm"],
          fields={"dominance": "Ref[ParetoDominance]", "leaders": "Ref[Archive]", "archive": "Ref[Archive]",
                  "r1_min": "Real", "r1_max": "Real", "r2_min": "Real", "r2_max": "Real",
                  "c1_min": "Real", "c1_max": "Real", "c2_min": "Real", "c2_max": "Real",
-                 "min_weight": "Real", "max_weight": "Real"})
+                 "min_weight": "Real", "max_weight": "Real", "n": "Int"})
 classdef("OMOPSO", bases=["SwarmAlgorithm"], fields={})
 classdef("SMPSO", bases=["SwarmAlgorithm"], fields={})
 classdef("PSOGA", bases=["SwarmAlgorithm"], fields={})
@@ -45,7 +45,7 @@ classdef("Problem", fields={"costs": "List[Ref[Cost]]", "parameters": "List[Ref[
                             "failed": "List[Ref[Individual]]", "signs": "List[Int]", "surrogate": "Ref[SurrogateModel]",
                             "data_store": "Ref[DataStore]", "has_predict": "Bool",
                             "ghost_calls": "Int", "ghost_last_arg": "Ref[Individual]", "ghost_last_vec": "List[Real]",
-                            "ghost_last_ret": "List[Real]", "ghost_last_g": "List[Real]", "ghost_nontransient": "Int", "ghost_ncosts": "Int"})
+                            "ghost_last_ret": "List[Real]", "ghost_last_g": "List[Real]", "ghost_last_g_vec": "List[Real]", "ghost_nontransient": "Int", "ghost_ncosts": "Int"})
 classdef("DataStore", fields={})
 classdef("SurrogateModel", fields={"problem": "Ref[Problem]", "x_data": "List[List[Real]]", "y_data": "List[List[Real]]",
                                    "trained": "Bool", "eval_counter": "Int", "predict_counter": "Int", "train_step": "Int",
